@@ -89,6 +89,7 @@ class JinjaIndex:
         self.env_options = self._env_options()
         self.env = Environment(**self.env_options)
         self.templates: dict[str, TemplateInfo] = {}
+        parsed: dict[str, tuple[Path, str, nodes.Template]] = {}
         for p in sorted(self.tdir.rglob("*")):
             if not p.is_file() or p.suffix != ".jinja":
                 continue
@@ -98,6 +99,19 @@ class JinjaIndex:
                 tree = self.env.parse(src, name=name, filename=str(p))
             except Exception as e:  # noqa: BLE001
                 raise AnalysisError(f"cannot parse template {name}: {e}") from e
+            parsed[name] = (p, src, tree)
+        # template inheritance: a child (`{% extends "parent" %}`) renders as the parent's layout with the child's blocks in place of the
+        # parent's, after the child's own top-level statements (sets, imports, macros) have run.  The child's tree is replaced by that
+        # flattened program before anything reads it, so every engine sees what is rendered under the child's name.
+        self.extends: dict[str, str] = {}
+        import copy as _copy
+
+        self._as_written = {n: _copy.deepcopy(v[2]) for n, v in parsed.items() if any(True for _ in v[2].find_all(nodes.Block))}
+        flat: dict[str, nodes.Template] = {}
+        for name in parsed:
+            flat[name] = self._flatten(name, parsed, set())
+        for name, (p, src, _tree) in parsed.items():
+            tree = flat[name]
             # template-bound variables are renamed to role names in the AST (sa/jinja_canon.py): nothing downstream depends on
             # how a template spells its own loop / set variables
             from .jinja_canon import canonicalise
@@ -111,6 +125,102 @@ class JinjaIndex:
             for m in tree.find_all(nodes.Macro):
                 ti.macros[m.name] = m
             self.templates[name] = ti
+        # the language of a template's text is that of the file it ends up in: a template whose own name says nothing (a macro library,
+        # a partial, a layout: `x.jinja`) is written in the language of the templates that import / include / extend it
+        users: dict[str, set[str]] = {}
+        for name, ti in self.templates.items():
+            for n in ti.tree.find_all((nodes.Import, nodes.FromImport, nodes.Include, nodes.Extends)):
+                t = n.template
+                if isinstance(t, nodes.Const) and isinstance(t.value, str) and t.value in self.templates:
+                    users.setdefault(t.value, set()).add(name)
+            if name in self.extends:
+                users.setdefault(self.extends[name], set()).add(name)
+        for _ in range(len(self.templates)):
+            moved = False
+            for name, ti in self.templates.items():
+                if ti.lang != "inert":
+                    continue
+                langs = {self.templates[u].lang for u in users.get(name, ())} - {"inert"}
+                if len(langs) == 1:
+                    ti.lang = langs.pop()
+                    moved = True
+            if not moved:
+                break
+
+    def _flatten(self, name: str, parsed: dict[str, Any], seen: set[str]) -> nodes.Template:
+        import copy
+
+        tree = parsed[name][2]
+        ext = [n for n in tree.body if isinstance(n, nodes.Extends)]
+        if any(isinstance(n, nodes.Extends) for n in tree.find_all(nodes.Extends)) and not ext:
+            raise AnalysisError(f"template {name}: `extends` below the top level is outside the supported subset")
+
+        def splice(body: list[nodes.Node], blocks: dict[str, nodes.Block]) -> list[nodes.Node]:
+            """body with every block replaced by the statements that are rendered in its place"""
+            out: list[nodes.Node] = []
+            for n in body:
+                if isinstance(n, nodes.Block):
+                    chosen = blocks.get(n.name, n)
+                    for c in chosen.find_all(nodes.Call):
+                        if isinstance(c.node, nodes.Name) and c.node.name == "super":
+                            raise AnalysisError(f"template {name}: super() in block {n.name} is outside the supported subset")
+                    out.extend(splice(copy.deepcopy(chosen.body) if chosen is not n else chosen.body, blocks))
+                    continue
+                for fld in ("body", "else_"):
+                    sub = getattr(n, fld, None)
+                    if isinstance(sub, list) and sub and all(isinstance(x, nodes.Node) for x in sub):
+                        setattr(n, fld, splice(sub, blocks))
+                for el in getattr(n, "elif_", []) or []:
+                    el.body = splice(el.body, blocks)
+                out.append(n)
+            return out
+
+        if not ext:
+            tree.body = splice(tree.body, {})
+            return tree
+        parent = ext[0].template
+        if len(ext) != 1 or not isinstance(parent, nodes.Const) or parent.value not in parsed:
+            raise AnalysisError(f"template {name}: cannot resolve the template it extends")
+        if name in seen:
+            raise AnalysisError(f"template {name}: inheritance cycle")
+        self.extends[name] = parent.value
+        base = copy.deepcopy(self._flatten_source(parent.value, parsed, seen | {name}))
+        own_blocks = {b.name: b for b in tree.find_all(nodes.Block)}
+        # outside blocks a child prints nothing; its top-level statements that bind names run before the layout
+        prelude = [n for n in tree.body if isinstance(n, (nodes.Assign, nodes.AssignBlock, nodes.Import, nodes.FromImport, nodes.Macro))]
+        tree.body = prelude + splice(base.body, own_blocks)
+        return tree
+
+    def _flatten_source(self, name: str, parsed: dict[str, Any], seen: set[str]) -> nodes.Template:
+        """the parent as written (blocks still in place, its own parent's layout resolved)"""
+        import copy
+
+        tree = copy.deepcopy(self._as_written.get(name, parsed[name][2]))
+        ext = [n for n in tree.body if isinstance(n, nodes.Extends)]
+        if not ext:
+            return tree
+        parent = ext[0].template
+        if not isinstance(parent, nodes.Const) or parent.value not in parsed or name in seen:
+            raise AnalysisError(f"template {name}: cannot resolve the template it extends")
+        base = self._flatten_source(parent.value, parsed, seen | {name})
+        own = {b.name: b for b in tree.find_all(nodes.Block)}
+
+        def swap(body: list[nodes.Node]) -> list[nodes.Node]:
+            out = []
+            for n in body:
+                if isinstance(n, nodes.Block) and n.name in own:
+                    out.append(own[n.name])
+                    continue
+                for fld in ("body", "else_"):
+                    sub = getattr(n, fld, None)
+                    if isinstance(sub, list) and sub and all(isinstance(x, nodes.Node) for x in sub):
+                        setattr(n, fld, swap(sub))
+                out.append(n)
+            return out
+
+        prelude = [n for n in tree.body if isinstance(n, (nodes.Assign, nodes.AssignBlock, nodes.Import, nodes.FromImport, nodes.Macro))]
+        tree.body = prelude + swap(base.body)
+        return tree
 
     def _env_options(self) -> dict[str, Any]:
         """Read the Environment(...) options from the AST of Project.__init__ (nothing is imported)."""
@@ -674,6 +784,11 @@ class JinjaInterp:
             tv = self.ev(n.template, env)
             names = self.const_strings(tv)
             if not names:
+                # `"dir/" + X.template` where the interpreter lost track of what X is (a value that travelled through a call block,
+                # a namespace list, ...): X.template is the `template` class variable of some property kind - every kind's template
+                # under that directory is a candidate (what narrows the candidates elsewhere - the classes X can be - is unknown here)
+                names = self._kind_templates_under(n.template)
+            if not names:
                 raise AnalysisError(f"{ti.name}:{n.lineno}: import of a template whose name cannot be enumerated")
             missing = [x for x in names if x not in self.jx.templates]
             if missing:
@@ -925,6 +1040,14 @@ class JinjaInterp:
         keep = frozenset(t for t in env[var].types if self._template_of_class(t) in tnames)
         if keep:
             env[var] = replace(env[var], types=keep)
+
+    def _kind_templates_under(self, e: nodes.Node) -> list[str]:
+        parts = [e.left, e.right] if isinstance(e, nodes.Add) else list(e.nodes) if isinstance(e, nodes.Concat) else []
+        if len(parts) != 2 or not (isinstance(parts[0], nodes.Const) and isinstance(parts[0].value, str)) or \
+                not (isinstance(parts[1], nodes.Getattr) and parts[1].attr == "template"):
+            return []
+        kinds = {self._template_of_class(c.qual) for c in self.ix.property_classes()} - {None}
+        return sorted(parts[0].value + k for k in kinds if parts[0].value + k in self.jx.templates)
 
     def _template_of_class(self, qual: str) -> str | None:
         c = self.ix.classes.get(qual)
